@@ -490,6 +490,15 @@ RemoveViaParent(s) ==
          /\ Ok("RemoveViaParent", [s |-> s], {par})
     /\ UNCHANGED <<mem, reg, fnode, mode, Aux>>
 
+\* c.remove_children([x]) where x is not a child of c - an entity under another parent, or a property group of another
+\* object - changes nothing: not in memory (entity_container.py:236-239, object_base.py:513-515 skip it) and not in the file
+RemoveNotAChild(c, x) ==
+    /\ Do("RemoveNotAChild") /\ Writable /\ c \in Att \cap (GS \cup OS) /\ c \notin dirty
+    /\ \/ (x \in Att \cap ES /\ x \notin kids[c] /\ x # c /\ x \notin dirty /\ (x \in DS => c \in OS))
+       \/ (x \in PS /\ c \in OS /\ pg[x].owner \in Att /\ pg[x].owner # c)
+    /\ Ok("RemoveNotAChild", [c |-> c, x |-> x], {})
+    /\ UNCHANGED <<mem, kids, pg, reg, fnode, flink, fpg, held, mode, Aux>>
+
 \* ObjectBase.remove_data_from_groups([d1, d2]) (object_base.py:630-648): every group of the object loses both
 ScrubData(o, ds) ==
     /\ Do("ScrubData") /\ Writable /\ o \in Att \cap OS /\ ds \subseteq kids[o] \cap DS /\ Cardinality(ds) = 2
@@ -737,6 +746,7 @@ Step ==
     \/ OpenAgain
     \/ \E d \in DS, e \in DS : SetType(d, e)
     \/ \E d \in DS, y \in W2E : Copy2Data(d, y)
+    \/ \E c \in GS \cup OS, x \in ES \cup PS : RemoveNotAChild(c, x)
 
 CmodeUpdate == cmode' = IF last'.act = "Open" /\ last'.args.fresh THEN last'.args.m ELSE cmode
 Next == Step /\ InordUpdate /\ CmodeUpdate
